@@ -46,14 +46,15 @@ IMR_VALUES = [0x00, 0x01, 0x04, 0x0F, 0x80, 0x81, 0x84, 0x8F, 0xFF]
 KEYS = ["KEY_Q", "KEY_A", "KEY_F1"]
 
 
-def scenario(main, body, imr0, timer, kb_irq=True):
+def scenario(main, body, imr0, timer, kb_irq=True, reti=b"\x01"):
     reset = bytes([0x0F]) + le3(0xB9000) + bytes([0x0E]) + le3(0xBA000) + bytes([0x32, 0xCC, 0xF0, 0xFF, 0x32, 0xCC, 0xFB, imr0])
     main_addr = ROM_BASE + len(reset)
     code = reset + MAINS[main]
-    handler = bytes([0x00]) + BODIES[body] + bytes([0x01])
+    handler = bytes([0x00]) + BODIES[body] + bytes(reti)     # reti: RETI, possibly behind a PRE byte
     pieces = [[ROM_BASE, code.hex()], [HANDLER, handler.hex()], [VECTOR, le3(HANDLER).hex()], [ENTRY, le3(ROM_BASE).hex()]]
     return {"code": pieces, "regs": {"PC": ROM_BASE, "S": 0xB9000, "U": 0xBA000}, "imem": {0xFB: 0, 0xFC: 0},
-            "timer": dict(timer, kb_irq=kb_irq), "main": main, "body": body, "imr0": imr0, "main_addr": main_addr}
+            "timer": dict(timer, kb_irq=kb_irq), "main": main, "body": body, "imr0": imr0, "main_addr": main_addr,
+            "reti": bytes(reti).hex()}
 
 
 _succ_cache = {}
@@ -61,7 +62,7 @@ _succ_cache = {}
 
 def succ_fn_for(scen):
     """Static successors of each instruction of the template, from the real decoder's branch metadata."""
-    key = (scen["main"], scen["body"], scen["imr0"])
+    key = (scen["main"], scen["body"], scen["imr0"], scen.get("reti"))
     if key in _succ_cache:
         return _succ_cache[key]
     from ..pyside import FlatMem  # noqa: F401
@@ -259,7 +260,8 @@ def run_shard(spec) -> Result:
             body = r.choice(list(BODIES))
             imr0 = r.choice(IMR_VALUES + [0x87, 0x83, 0x8B])
             timer = {"enabled": r.random() < 0.85, "mti": r.choice((1, 2, 3, 4, 5, 7, 9)), "sti": r.choice((0, 2, 3, 5, 8, 9))}
-            scen = scenario(main, body, imr0, timer, kb_irq=r.random() < 0.85)
+            scen = scenario(main, body, imr0, timer, kb_irq=r.random() < 0.85,
+                            reti=r.choice((b"\x01", b"\x01", b"\x01", b"\x32\x01", b"\x25\x01")))
             nsteps = r.randrange(50, 160 if tier == "quick" else 400)
             placed = {}
             for _e in range(r.randrange(0, 10)):
